@@ -6,26 +6,30 @@ ROOT = os.path.dirname(os.path.dirname(os.path.abspath(__file__)))
 
 BASE = "cd /repo && /venv/bin/python -m pytest -ra -q -p no:cacheprovider --timeout=900 --continue-on-collection-errors"
 
-# id -> (technique, level text, level note, design ref)
-CLAIMS = {
-    "C20": (
-        "Coq proof (invariant + refinement to a plain set, induction over histories) + model/implementation correspondence",
-        "General theorems in coq/Props/C20.v: for every finite add/remove/draw/contains/len/iter history the model's "
-        "outputs satisfy the plain-set specification, the list/dict invariant holds in every reachable state, every "
-        "member can be drawn, removal of an absent element raises and leaves the state unchanged. The model is tied to "
-        "gcmpy/tools/draw_set.py by an every-step exact comparison of outputs, _edges and _edge_hashmap "
-        "(exhaustive short histories + random long ones), and the verified checker c20_check judges the "
-        "implementation's own outputs.",
-        "Trusted: Coq kernel; extraction (ExtrOcamlBasic) + OCaml driver + Python harness for the correspondence; "
-        "CPython random.choice indexing. No axioms (Print Assumptions: closed under the global context).",
-        "DESIGN.md section 5, C20",
-    ),
-}
+import importlib
+
+
+def load_claims():
+    """a property is claimed when harness/props/cxx.py exists and defines TECHNIQUE, LEVEL_TEXT, LEVEL_NOTE"""
+    claims = {}
+    for n in range(1, 21):
+        pid = f"C{n:02d}"
+        if not os.path.exists(os.path.join(ROOT, "harness", "props", pid.lower() + ".py")):
+            continue
+        if not os.path.exists(os.path.join(ROOT, "coq", "Props", pid + ".v")):
+            continue
+        m = importlib.import_module(f"harness.props.{pid.lower()}")
+        if not all(hasattr(m, a) for a in ("TECHNIQUE", "LEVEL_TEXT", "LEVEL_NOTE")):
+            continue
+        claims[pid] = (m.TECHNIQUE, m.LEVEL_TEXT, m.LEVEL_NOTE, getattr(m, "DESIGN_REF", f"DESIGN.md section 5, {pid}"))
+    return claims
+
 
 PENDING_REASON = "check not built yet in this revision of /verif (work in progress; see DESIGN.md section 8 build order)"
 
 
 def main():
+    CLAIMS = load_claims()
     props = [json.loads(l) for l in open(os.path.join(ROOT, "properties.jsonl"))]
     checks = []
     na = []
